@@ -427,7 +427,11 @@ func execute(t *testing.T, s *seq) *runResult {
 
 	oldLinks := capture.VerifSetHostLinksFn(func(...string) (link.Links, error) {
 		var l link.Links
-		for i, n := range universe {
+		order := s.Links
+		if len(order) == 0 {
+			order = universe
+		}
+		for i, n := range order {
 			l = append(l, &link.Link{Name: n, Index: i + 1})
 		}
 		return l, nil
